@@ -330,6 +330,8 @@ class Interp:
                     if dlo != dhi:
                         raise Unsupported('read of buffer cell at non-constant offset inside a write')
                     return content[1][dlo]
+                if content[0] == 'fill':
+                    return content[1]
                 if content[0] == 'copy':
                     (sbase, slo, shi) = content[1]
                     off = mk_lin(USIZE, c_idx - c_lo, d)
@@ -472,14 +474,21 @@ class Interp:
         for p in place['proj']:
             k = p['k']
             if target[0] == 'sliceplace':
+                _, base, lo, hi = target
                 if k == 'index':
                     idx = fr.locals[p['local']]
-                    _, base, lo, hi = target
                     target = (base[0], base[1] + (('i', self.add(lo, idx)),))
                     continue
-                if k == 'constant_index' and not p['from_end']:
-                    _, base, lo, hi = target
-                    target = (base[0], base[1] + (('i', self.add(lo, K(USIZE, p['offset']))),))
+                if k == 'constant_index':
+                    if p['from_end']:
+                        target = (base[0], base[1] + (('i', self.sub(hi, K(USIZE, p['offset']))),))
+                    else:
+                        target = (base[0], base[1] + (('i', self.add(lo, K(USIZE, p['offset']))),))
+                    continue
+                if k == 'subslice':
+                    nlo = self.add(lo, K(USIZE, p['from']))
+                    nhi = self.sub(hi, K(USIZE, p['to'])) if p['from_end'] else self.add(lo, K(USIZE, p['to']))
+                    target = ('sliceplace', base, nlo, nhi)
                     continue
                 raise Unsupported('projection %s on unsized slice place' % k)
             if k == 'deref':
@@ -500,6 +509,16 @@ class Interp:
                 target = (target[0], target[1] + (('i', idx),))
             elif k == 'constant_index' and not p['from_end']:
                 target = (target[0], target[1] + (('i', K(USIZE, p['offset'])),))
+            elif k in ('constant_index', 'subslice'):
+                v = self.read(st, target)
+                if v[0] != 'array':
+                    raise Unsupported('place projection %s on %s' % (k, v[0]))
+                n_ = len(v[1])
+                if k == 'constant_index':
+                    target = (target[0], target[1] + (('i', K(USIZE, n_ - p['offset'])),))
+                else:
+                    nhi = n_ - p['to'] if p['from_end'] else p['to']
+                    target = ('sliceplace', target, K(USIZE, p['from']), K(USIZE, nhi))
             else:
                 raise Unsupported('place projection %s' % k)
         return target
@@ -522,6 +541,12 @@ class Interp:
             return v
         if k == 'const':
             return self.const(st, fr, o['c'])
+        if k == 'runtime_checks':
+            # library UB / contract precondition checks are not part of the analysed behaviour;
+            # overflow checks follow the profile of the extraction
+            if o['which'] == 'OverflowChecks':
+                return TRUE if self.prog.meta.get('overflow_checks') else FALSE
+            return FALSE
         raise Unsupported('operand %s %s' % (k, o.get('dbg', '')))
 
     def const(self, st, fr, c):
@@ -558,6 +583,18 @@ class Interp:
             return ('str', c['v'])
         if k == 'promoted':
             return self.promoted(st, fr, c['idx'])
+        if k == 'agg':
+            t = c['ty']
+            fields = tuple(self.const(st, fr, f) for f in c['fields'])
+            if t['k'] == 'array':
+                return ('array', fields)
+            if t['k'] == 'tuple':
+                return ('tuple', fields)
+            if t['k'] == 'unit':
+                return UNIT
+            if t['k'] == 'adt':
+                return ('adt', t['id'], c['variant'] or 0, fields)
+            raise Unsupported('aggregate constant of type %s' % t['k'])
         raise Unsupported('constant %s' % c.get('dbg', k))
 
     def promoted(self, st, fr, idx):
@@ -662,6 +699,8 @@ class Interp:
                 if ak['path'] == 'core::ops::RangeInclusive':
                     return ('model', 'rangeincl') + ops
                 return ('adt', tid, ak['variant'], ops)
+            if ak['k'] == 'closure':
+                return ('closure', ak['path'], ops)
             raise Unsupported('aggregate %s' % ak['k'])
         raise Unsupported('rvalue %s %s' % (k, r.get('dbg', '')))
 
@@ -821,27 +860,118 @@ class Interp:
             dst, src = args
             self.copy_from_slice(st, dst, src)
             return True, UNIT
-        if P == 'core::slice::<impl [T]>::iter':
+        if P in ('core::slice::<impl [T]>::iter', 'core::slice::<impl [T]>::iter_mut'):
             return True, ('model', 'iter', args[0], K(USIZE, 0))
-        if P == "<core::slice::Iter<'a, T> as core::iter::Iterator>::next":
+        if re.match(r"^core::slice::iter::<impl core::iter::IntoIterator for &'a (mut )?\[T\]>::into_iter$", P):
+            return True, ('model', 'iter', args[0], K(USIZE, 0))
+        if re.match(r"^core::array::<impl core::iter::IntoIterator for &'a (mut )?\[T; N\]>::into_iter$", P):
+            return True, ('model', 'iter', self.as_slice(st, args[0], callee), K(USIZE, 0))
+        if P in ("<core::slice::Iter<'a, T> as core::iter::Iterator>::next", "<core::slice::IterMut<'a, T> as core::iter::Iterator>::next"):
             ref = args[0]
             it = self.read(st, ref[1])
-            if it[0] != 'model' or it[1] != 'iter':
-                raise Unsupported('Iter::next on %s' % (it[0],))
-            sl, pos = it[2], it[3]
-            ln = self.slice_len(sl)
             ret_ty = self.prog.instances[callee['key']]['sig']['output']
-            cond = mk_cmp('Lt', pos, ln)
-            if not is_const(cond):
-                c0, t0 = lin_of(ln)
-                lo, hi = st.know.interval(c0, t0)
-                if not is_const(pos) or (pos[2] >= 64 and hi - pos[2] > 64):
-                    raise Unsupported('loop over a slice whose symbolic length is not bounded (%s in [%d, %d])' % (show_term(ln), lo, hi))
-            if self.need(st, cond):
-                eref = ('ref', (sl[1][0], sl[1][1] + (('i', self.add(sl[2], pos)),)))
-                self.write(st, ref[1], ('model', 'iter', sl, self.add(pos, K(USIZE, 1))))
-                return True, ('adt', ret_ty['id'], 1, (eref,))
-            return True, ('adt', ret_ty['id'], 0, ())
+            newit, item = self.model_next(st, it)
+            if item is None:
+                return True, ('adt', ret_ty['id'], 0, ())
+            self.write(st, ref[1], newit)
+            return True, ('adt', ret_ty['id'], 1, (item,))
+        if P == 'core::iter::Iterator::zip':
+            a, b = args
+            return True, ('model', 'zip', self.as_iter(st, a, None), self.as_iter(st, b, callee))
+        if P == '<core::iter::Zip<A, B> as core::iter::Iterator>::next':
+            ref = args[0]
+            it = self.read(st, ref[1])
+            ret_ty = self.prog.instances[callee['key']]['sig']['output']
+            newit, item = self.model_next(st, it)
+            if item is None:
+                return True, ('adt', ret_ty['id'], 0, ())
+            self.write(st, ref[1], newit)
+            return True, ('adt', ret_ty['id'], 1, (item,))
+        if P == 'core::slice::<impl [T]>::fill':
+            self.fill(st, args[0], args[1])
+            return True, UNIT
+        if P in ('core::slice::<impl [T]>::split_at', 'core::slice::<impl [T]>::split_at_mut'):
+            sl, mid = args
+            if sl[0] != 'slice':
+                raise Unsupported('split_at on %s' % sl[0])
+            if not self.need(st, mk_cmp('Le', mid, self.slice_len(sl))):
+                raise Panic('split_at', 'mid > len')
+            m = self.add(sl[2], mid)
+            return True, ('tuple', (('slice', sl[1], sl[2], m), ('slice', sl[1], m, sl[3])))
+        m = re.match(r'^core::num::<impl (u8|u16|u32|u64|usize|u128)>::(from|to)_(be|le|ne)_bytes$', P)
+        if m:
+            ty_, dirn, end = m.groups()
+            w = {'u8': 8, 'u16': 16, 'u32': 32, 'u64': 64, 'usize': USIZE, 'u128': 128}[ty_]
+            if end == 'ne':
+                end = 'le'     # the analysed target (x86_64) is little endian
+            nb = w // 8
+            if dirn == 'from':
+                arr = args[0]
+                if arr[0] != 'array' or len(arr[1]) != nb:
+                    raise Unsupported('from_bytes argument')
+                cells = list(arr[1]) if end == 'le' else list(reversed(arr[1]))
+                bits = ()
+                for c in cells:
+                    bits += tuple(bits_of(c))
+                return True, mk_bv(w, bits)
+            v = args[0]
+            bits = bits_of(v)
+            cells = [mk_bv(8, bits[8 * i: 8 * i + 8]) for i in range(nb)]
+            if end == 'be':
+                cells.reverse()
+            return True, ('array', tuple(cells))
+        if P == 'core::array::equality::<impl core::cmp::PartialEq<[U; N]> for [T; N]>::eq' or \
+                P == 'core::array::equality::<impl core::cmp::PartialEq<[U; N]> for [T; N]>::ne':
+            a = self.read(st, args[0][1])
+            b = self.read(st, args[1][1])
+            if a[0] != 'array' or b[0] != 'array' or len(a[1]) != len(b[1]):
+                raise Unsupported('array comparison')
+            same = True
+            for x, y in zip(a[1], b[1]):
+                if x[0] not in ('k', 'bv', 'lin') or y[0] not in ('k', 'bv', 'lin'):
+                    raise Unsupported('array comparison of non-integer elements')
+                if not self.need(st, mk_cmp('Eq', x, y)):
+                    same = False
+                    break
+            if P.endswith('::ne'):
+                same = not same
+            return True, (TRUE if same else FALSE)
+        # --- intrinsics
+        if P in ('core::intrinsics::cold_path', 'core::intrinsics::assume', 'core::hint::assert_unchecked'):
+            return True, UNIT
+        if P in ('core::intrinsics::likely', 'core::intrinsics::unlikely', 'core::hint::likely', 'core::hint::unlikely',
+                 'core::intrinsics::black_box', 'core::hint::black_box'):
+            return True, args[0]
+        if P in ('core::intrinsics::saturating_sub', 'core::intrinsics::saturating_add'):
+            a, b = args
+            w = width(a)
+            if P.endswith('sub'):
+                if self.need(st, mk_cmp('Lt', a, b)):
+                    return True, K(w, 0)
+                return True, self.sub(a, b)
+            val, ov = self.arith(st, 'Add', a, b, w, False)
+            if val[0] == 'pending':
+                self.need(st, ov)
+                raise Unsupported('internal: saturating_add not decided after fork')
+            if ov == TRUE:
+                return True, K(w, mask(w))
+            return True, val
+        if P == 'core::intrinsics::bswap':
+            bits = bits_of(args[0])
+            nb = len(bits) // 8
+            out = ()
+            for i in reversed(range(nb)):
+                out += tuple(bits[8 * i: 8 * i + 8])
+            return True, mk_bv(len(bits), out)
+        if P in ('core::intrinsics::wrapping_add', 'core::intrinsics::wrapping_sub', 'core::intrinsics::wrapping_mul'):
+            a, b = args
+            w = width(a)
+            op = {'add': 'Add', 'sub': 'Sub', 'mul': 'Mul'}[P.rsplit('_', 1)[1]]
+            val, ov = self.arith(st, op, a, b, w, False)
+            if val[0] == 'pending':
+                self.need(st, ov)
+                raise Unsupported('internal: wrapping op not decided after fork')
+            return True, val
         if P.endswith('RangeInclusiveIteratorImpl>::spec_next') or P.endswith('RangeInclusiveIteratorImpl>::spec_next_back'):
             ref = args[0]
             r = self.read(st, ref[1])
@@ -893,6 +1023,72 @@ class Interp:
             return False, None
         return False, None
 
+    def as_slice(self, st, v, callee=None):
+        """A reference to an array (or a slice) as a slice value."""
+        if v[0] == 'slice':
+            return v
+        if v[0] == 'ref':
+            arr = self.read(st, v[1])
+            if arr[0] == 'array':
+                return ('slice', v[1], K(USIZE, 0), K(USIZE, len(arr[1])))
+        raise Unsupported('cannot view %s as a slice' % v[0])
+
+    def as_iter(self, st, v, callee):
+        """IntoIterator::into_iter of the kinds of value the models know."""
+        if v[0] == 'model' and v[1] in ('iter', 'zip'):
+            return v
+        if v[0] in ('slice', 'ref'):
+            return ('model', 'iter', self.as_slice(st, v), K(USIZE, 0))
+        raise Unsupported('zip with an iterator of kind %s' % (v[1] if v[0] in ('model', 'adt') else v[0],))
+
+    def model_next(self, st, it):
+        """-> (new iterator value, item) or (it, None) when exhausted. May fork."""
+        if it[0] != 'model':
+            raise Unsupported('next() on %s' % (it[0],))
+        if it[1] == 'iter':
+            sl, pos = it[2], it[3]
+            ln = self.slice_len(sl)
+            cond = mk_cmp('Lt', pos, ln)
+            if not is_const(cond):
+                c0, t0 = lin_of(ln)
+                lo, hi = st.know.interval(c0, t0)
+                if not is_const(pos) or (pos[2] >= 64 and hi - pos[2] > 64):
+                    raise Unsupported('loop over a slice whose symbolic length is not bounded (%s in [%d, %d])' % (show_term(ln), lo, hi))
+            if self.need(st, cond):
+                eref = ('ref', (sl[1][0], sl[1][1] + (('i', self.add(sl[2], pos)),)))
+                return ('model', 'iter', sl, self.add(pos, K(USIZE, 1))), eref
+            return it, None
+        if it[1] == 'zip':
+            na, ia = self.model_next(st, it[2])
+            if ia is None:
+                return it, None
+            nb, ib = self.model_next(st, it[3])
+            if ib is None:
+                return it, None
+            return ('model', 'zip', na, nb), ('tuple', (ia, ib))
+        raise Unsupported('next() on model %s' % it[1])
+
+    def fill(self, st, sl, val):
+        if sl[0] != 'slice':
+            raise Unsupported('fill on %s' % sl[0])
+        n = self.conc(st, self.slice_len(sl))
+        lo = self.conc(st, sl[2])
+        root, proj = sl[1]
+        obj = st.heap[root[1]] if root[0] == 'heap' else None
+        if obj is not None and obj[0] == 'buf' and not proj:
+            if is_const(n) and n[2] == 0:
+                return
+            if is_const(n) and n[2] <= 64:
+                st.heap[root[1]] = ('buf', obj[1], obj[2] + ((lo, n, ('cells', (val,) * n[2])),))
+            else:
+                st.heap[root[1]] = ('buf', obj[1], obj[2] + ((lo, n, ('fill', val)),))
+            st.effects.append(('outwrite', obj[1], lo, n))
+            return
+        if not (is_const(n) and is_const(lo)):
+            raise Unsupported('fill of a local array region with symbolic bounds')
+        for i in range(n[2]):
+            self.write(st, (root, proj + (('i', K(USIZE, lo[2] + i)),)), val)
+
     def pec_key(self, st, sl):
         base = sl[1]
         root, proj = base
@@ -936,6 +1132,19 @@ class Interp:
         droot, dproj = dst[1]
         dobj = st.heap[droot[1]] if droot[0] == 'heap' else None
         if dobj is not None and dobj[0] == 'buf' and not dproj:
+            sroot = src[1][0]
+            if not is_const(dl) and sroot[0] == 'local':
+                # a region of a local array must be copied by value (the frame dies): split on its bounded length
+                c0, ts = lin_of(dl)
+                lo, hi = st.know.interval(c0, ts)
+                if hi - lo > 64:
+                    raise Unsupported('copy of a local array region of unbounded symbolic length')
+                for v in range(lo, hi + 1):
+                    if self.need(st, mk_cmp('Eq', dl, K(USIZE, v))):
+                        dl = K(USIZE, v)
+                        break
+                else:
+                    raise Infeasible()
             if is_const(dl) and dl[2] == 0:
                 return
             if is_const(dl) and dl[2] <= 64:
@@ -946,7 +1155,16 @@ class Interp:
             st.effects.append(('outwrite', dobj[1], dst[2], dl))
             return
         if not is_const(dl):
-            raise Unsupported('copy_from_slice of symbolic length into a local array')
+            c0, ts = lin_of(dl)
+            lo, hi = st.know.interval(c0, ts)
+            if hi - lo > 64:
+                raise Unsupported('copy_from_slice of unbounded symbolic length into a local array')
+            for v in range(lo, hi + 1):
+                if self.need(st, mk_cmp('Eq', dl, K(USIZE, v))):
+                    dl = K(USIZE, v)
+                    break
+            else:
+                raise Infeasible()
         if not is_const(dst[2]):
             raise Unsupported('copy_from_slice into a local array at symbolic offset %s' % show_term(dst[2]))
         for i in range(dl[2]):
@@ -988,6 +1206,11 @@ class Interp:
     def push_frame(self, st, key, args, dest, ret_bb, call_span):
         inst = self.prog.instances[key]
         body = inst['body']
+        if inst.get('closure') and args:
+            # closures are called through the Fn* traits with their arguments in one tuple
+            last = args[-1]
+            if last[0] in ('tuple', 'unit'):
+                args = list(args[:-1]) + (list(last[1]) if last[0] == 'tuple' else [])
         if len(args) != body['argc']:
             raise Unsupported('arity mismatch calling %s' % key)
         fr = Frame()
